@@ -17,6 +17,7 @@ struct FnOut {
     src_path: String,
     keys: Vec<String>,
     poolstr: String,
+    renames: Vec<(String, String)>,
 }
 
 pub struct Emitter<'a> {
@@ -46,7 +47,44 @@ fn json_str(s: &str) -> String {
     o
 }
 
+thread_local! {
+    /// `local NAME ORD` of the function being emitted, resolved: overlay name -> name in the current source
+    pub static LOCAL_RENAMES: std::cell::RefCell<Vec<(String, String)>> = std::cell::RefCell::new(vec![]);
+}
+
+fn rename_locals(text: &str) -> String {
+    LOCAL_RENAMES.with(|r| {
+        let r = r.borrow();
+        if r.is_empty() {
+            return text.to_string();
+        }
+        // whole-identifier replacement
+        let cs: Vec<char> = text.chars().collect();
+        let mut out = String::new();
+        let mut i = 0;
+        while i < cs.len() {
+            if cs[i].is_alphabetic() || cs[i] == '_' {
+                let st = i;
+                while i < cs.len() && (cs[i].is_alphanumeric() || cs[i] == '_') {
+                    i += 1;
+                }
+                let w: String = cs[st..i].iter().collect();
+                let prev_dot = st > 0 && cs[st - 1] == '.';
+                match r.iter().find(|(a, _)| *a == w) {
+                    Some((_, b)) if !prev_dot => out.push_str(b),
+                    _ => out.push_str(&w),
+                }
+            } else {
+                out.push(cs[i]);
+                i += 1;
+            }
+        }
+        out
+    })
+}
+
 fn subst_pool(text: &str, pool: &str) -> String {
+    let text = &rename_locals(text);
     // `&$P` with `$P` a `&mut` reference (bare identifier) must reborrow
     let bare = !pool.contains('.') && !pool.is_empty();
     let t = if bare { text.replace("&$P", &format!("&*{}", pool)) } else { text.to_string() };
@@ -224,6 +262,7 @@ impl<'a> Emitter<'a> {
             src_path: self.u.sources.get(&fs.src).cloned().unwrap_or_default(),
             keys,
             poolstr,
+            renames: LOCAL_RENAMES.with(|r| r.borrow().clone()),
         };
         match (&ff.impl_generics, &ff.impl_self_ty) {
             (Some(g), Some(st)) => {
@@ -329,6 +368,7 @@ impl<'a> Emitter<'a> {
                 let id = rest.trim_end_matches(");").trim_matches('"').to_string();
                 let f = *specs.get(&id).expect("fn marker without spec");
                 cur_fn = Some(f);
+                LOCAL_RENAMES.with(|r| *r.borrow_mut() = f.renames.clone());
                 // signature = lines from the last `fn` line to here (exclusive)
                 let mut k = out.len();
                 while k > 0 {
